@@ -338,8 +338,14 @@ func (v *numericValidator) generate(out *codegen.Emitter, format string) {
 		if v.roundToInt {
 			out.Printlnf(`if %s %s%s %% %v != 0 {`, checkPointer, pointerPrefix, value, v.valueOf(*v.multipleOf))
 		} else {
+			operand := pointerPrefix + value
+			if v.fieldName == "" {
+				// The value of a named number type is not a float64 itself.
+				operand = fmt.Sprintf("float64(%s)", operand)
+			}
+
 			out.Printlnf(
-				`if %s math.Abs(math.Mod(%s%s, %v)) > 1e-10 {`, checkPointer, pointerPrefix, value, v.valueOf(*v.multipleOf))
+				`if %s math.Abs(math.Mod(%s, %v)) > 1e-10 {`, checkPointer, operand, v.valueOf(*v.multipleOf))
 		}
 
 		out.Indent(1)
